@@ -28,13 +28,14 @@ def table(rows):
 r1,r2,r3=rows_for('/verif/seeded'),rows_for('/verif/seeded2'),rows_for('/verif/seeded3')
 r4=rows_for('/verif/seeded4')
 r5=rows_for('/verif/seeded5')
+r6=rows_for('/verif/seeded6')
 c=lambda r: sum(1 for x in r if x[2]=='caught')
 ob=lambda r: [x[0] for x in r if x[2]=='caught' and x[3].startswith('obligation')]
 bd=lambda r: [x[0] for x in r if x[2]=='caught' and x[3].startswith('bounded')]
 text=f'''
 ### 9.6 Seeded property-breaking changes
 
-Five batches of changes were written by independent sub-agents that saw only the property text and a scratch
+Six batches of changes were written by independent sub-agents that saw only the property text and a scratch
 worktree (never /verif); each compiles, keeps the whole existing test suite green, and comes with a demo test
 on the public API that fails with the change and passes without it.
 
@@ -80,7 +81,21 @@ on the public API that fails with the change and passes without it.
   attribute rewriting of cloned subtrees, see §9.3), and an "element zoo" (every HTML element name nested in itself, four
   contexts) to the totality harness. The C03 contract work showed that the unchanged tree itself cuts paragraphs at
   MediaWiki edit-section links (recorded as a known finding, §9.4).
-* The harness extensions of all rounds exposed 17 more genuine defects and 5 known findings on the unchanged
+* **Batch 6** (`/verif/seeded6/<id>-g1/`, 20 changes, steered towards the filters, renderers, markup parsers, pagination
+  patterns and table rules) had a **first-run rate of 17 of 20** (C01, C03, C04, C06, C08, C10, C11, C12, C13, C14, C16, C18, C19 by named
+  obligations; C05, C09, C15, C20 by harness cases). The functional contracts on the OpenGraph and schema.org parsers and the attribute
+  specs had been written before the batch arrived, without knowledge of it. Answers to the 3 misses: the `[C07]` clause
+  "a visible element of a cloned subtree is kept" of `GetOutputNodes` existed but was only routed to the C04/C05 checks —
+  the function is now also a C07 target (C07); `NewPathComponentPagePattern` requires that it is given a match of the
+  number regexp (byte offsets) and the pager generator got families with percent-escaped non-ASCII letters (C17); a
+  data-table shape with `tfoot` written before `tbody` in the excerpt generator (C02: nothing in the contract language
+  distinguishes "restructured after CloneAndProcessTree returned" from "built that way" — freshness-based frames cannot
+  tell the callee's writes from the caller's). The new pager families and a remark of a seed author exposed two more
+  genuine defects on the unchanged tree (page's own URL returned as PrevPage for escaped paths; foreign frames nested in
+  an embedded tweet), both repaired (§9.4). In this round `MakeAllLinksAbsolute` also got the functional contract that
+  round 5 had declared out of reach (anchors and posters of the whole subtree incl. the root are rewritten to `absSpec`),
+  on a trusted spec of `dom.SetAttribute` that states the "attribute rows are not shared between nodes" assumption.
+* The harness extensions of all rounds exposed 19 more genuine defects and 6 known findings on the unchanged
   tree (§9.4) — including one (`Figure.GenerateOutput` with a hidden caption) that an earlier fix of this very
   effort had introduced and that the contract on the renderers caught.
 
@@ -110,10 +125,14 @@ Batch 5 (after strengthening): {c(r5)} of 20 reported.
 
 {table(r5)}
 
-Caught by a named contract/engine obligation: {len(ob(r1))} in batch 1, {len(ob(r2))} in batch 2 ({", ".join(x.split("-")[0] for x in ob(r2))}), {len(ob(r3))} in batch 3 ({", ".join(x.split("-")[0] for x in ob(r3))}), {len(ob(r4))} in batch 4 ({", ".join(x.split("-")[0] for x in ob(r4))}), {len(ob(r5))} in batch 5 ({", ".join(x.split("-")[0] for x in ob(r5))}); only by a bounded harness case: {len(bd(r1))}, {len(bd(r2))} ({", ".join(x.split("-")[0] for x in bd(r2))}), {len(bd(r3))} ({", ".join(x.split("-")[0] for x in bd(r3))}) {len(bd(r4))} ({", ".join(x.split("-")[0] for x in bd(r4))}) and {len(bd(r5))} ({", ".join(x.split("-")[0] for x in bd(r5))}). This split, and the first-run numbers above (9/20, 11/20, 14/20, 12/20), are the honest measure of how far the contracts reach and how well the harnesses generalise: string/regexp rewriting loops, the renderers' text, TreeClone, markup value handling and the pagination *heuristics* (as opposed to their index safety) are defended by enumeration only, and an enumeration only sees the dimensions somebody thought of.
+Batch 6 (after strengthening): {c(r6)} of 20 reported.
+
+{table(r6)}
+
+Caught by a named contract/engine obligation: {len(ob(r1))} in batch 1, {len(ob(r2))} in batch 2 ({", ".join(x.split("-")[0] for x in ob(r2))}), {len(ob(r3))} in batch 3 ({", ".join(x.split("-")[0] for x in ob(r3))}), {len(ob(r4))} in batch 4 ({", ".join(x.split("-")[0] for x in ob(r4))}), {len(ob(r5))} in batch 5 ({", ".join(x.split("-")[0] for x in ob(r5))}), {len(ob(r6))} in batch 6 ({", ".join(x.split("-")[0] for x in ob(r6))}); only by a bounded harness case: {len(bd(r1))}, {len(bd(r2))} ({", ".join(x.split("-")[0] for x in bd(r2))}), {len(bd(r3))} ({", ".join(x.split("-")[0] for x in bd(r3))}) {len(bd(r4))} ({", ".join(x.split("-")[0] for x in bd(r4))}), {len(bd(r5))} ({", ".join(x.split("-")[0] for x in bd(r5))}) and {len(bd(r6))} ({", ".join(x.split("-")[0] for x in bd(r6))}). This split, and the first-run numbers above (9/20, 11/20, 14/20, 12/20, 17/20), are the honest measure of how far the contracts reach and how well the harnesses generalise: string/regexp rewriting loops, the renderers' text, TreeClone, markup value handling and the pagination *heuristics* (as opposed to their index safety) are defended by enumeration only, and an enumeration only sees the dimensions somebody thought of.
 '''
 d=open('/verif/DESIGN.md').read()
 i=d.index('\n### 9.6 Seeded property-breaking changes'); j=d.index('\n### 9.8 Data-structure invariants')
 d=d[:i]+text.rstrip()+"\n"+d[j:]
 open('/verif/DESIGN.md','w').write(d)
-print(c(r1),c(r2),c(r3),c(r4),c(r5))
+print(c(r1),c(r2),c(r3),c(r4),c(r5),c(r6))
